@@ -19,6 +19,9 @@ def _run_one(args):
     try:
         ctx = Ctx(prop, "quick", overlay=overlay)
         mod.check(ctx)
+        if ctx.declined and not ctx.findings:
+            # nothing found and some rule could not analyse its shape: the registered check would exit 2
+            return ("analysis-error", "; ".join(f"{why} [{name}]" for name, why in ctx.declined))
         return ("ok", [(f.rule, f.key, f.message) for f in ctx.findings])
     except AnalysisError as e:
         return ("analysis-error", str(e))
